@@ -176,7 +176,7 @@ def rssi(r) -> str:
 # corruption: 1-3 edits that keep the line "within a few edits of a valid frame"
 # ---------------------------------------------------------------------------------------
 
-EDITS = ["hexflip", "addrflip", "lenfield", "truncate", "dropspace", "dblspace", "rssigarbage", "nonascii",
+EDITS = ["shorten", "lengthen", "addrset", "addrblank", "hexflip", "addrflip", "lenfield", "truncate", "dropspace", "dblspace", "rssigarbage", "nonascii",
          "blank", "comment", "errnote", "bang", "banner", "extend", "lower", "verb", "crcr", "nul", "hint"]
 
 
@@ -187,7 +187,28 @@ def corrupt(line: str, r, n_edits: int | None = None) -> tuple[str, list[str]]:
         k = r.choice(EDITS)
         kinds.append(k)
         s = line
-        if k == "hexflip" and len(s) > 50:
+        if k in ("shorten", "lengthen") and len(s) > 52 and s[46:49].isdigit():
+            # a structurally consistent frame whose payload is shorter/longer than its code expects
+            pl = s[50:].split(" ")[0]
+            rest = s[50 + len(pl):]
+            if k == "shorten":
+                n = r.choice([1, 1, 2, max(1, len(pl) // 2 - 1)])
+                pl = pl[: 2 * n]
+            else:
+                pl = pl + r.choice(["00", "FF", pl[:2], "7FFF"])
+            if 0 < len(pl) <= 96:
+                s = f"{s[:46]}{len(pl) // 2:03d} {pl}{rest}"
+        elif k == "addrset" and len(s) > 40:
+            a = [s[11:20], s[21:30], s[31:40]]
+            x = r.choice([a[0], a[1], a[2], "01:145038"])
+            sets = [("--:------",) * 3, (x, x, x), ("--:------", x, "--:------"), (x, "--:------", "--:------"),
+                    ("--:------", "--:------", "--:------"), (a[2], a[1], a[0]), ("63:262142", "--:------", x),
+                    ("--:------", x, x), (x, "63:262142", "--:------")]
+            s = s[:11] + " ".join(r.choice(sets)) + s[40:]
+        elif k == "addrblank" and len(s) > 40:
+            i = r.choice([11, 21, 31])
+            s = s[:i] + "--:------" + s[i + 9:]
+        elif k == "hexflip" and len(s) > 50:
             i = r.randrange(50, len(s))
             s = s[:i] + r.choice("0123456789ABCDEFGZ ") + s[i + 1:]
         elif k == "addrflip" and len(s) > 40:
